@@ -94,6 +94,9 @@ function bindalign(analyze, req) {
   try { B = analyze(req.b, req.goalB || req.goalA || 'script', false); } catch (e) { return { ok: false, err: 'output: ' + String(e && e.message) }; }
   const fa = A.occ.filter(o => !o.ambiguous), fb = B.occ.filter(o => !o.ambiguous);
   if (fa.length !== fb.length) return { ok: true, aligned: false, na: fa.length, nb: fb.length };
+  // when no renaming took place the two occurrence sequences must spell the same names: otherwise they are not the same sequence
+  // (esbuild restructured the code, e.g. a block-level function became `let f2 = function…; var f = f2`) and nothing is compared
+  if (req.sameNames) for (let i = 0; i < fa.length; i++) if (fa[i].name !== fb[i].name || fa[i].ns !== fb[i].ns) return { ok: true, aligned: false, na: fa.length, nb: fb.length, at: i };
   const viol = []; const mapAB = new Map(), mapBA = new Map();
   const ctx = (code, o) => code.slice(Math.max(0, o.start - 30), o.end + 15);
   for (let i = 0; i < fa.length; i++) {
